@@ -350,7 +350,7 @@ Eval vm_compute in map (fun x => let '(ms, a, kw) := x in
     tc = diff["tok"]
     body = "Local Open Scope Z_scope.\nDefinition cases : list (ctr * Z * Z) := " + coq_list(["(%s, %d, %d)" % (c, tb, sz) for c, tb, sz, _ in tc]) + \
            ".\nEval vm_compute in map (fun x => match taste (fst (fst x)) (snd (fst x)) (snd x) with TOk => 0 | TViol => 1 | TBanana => 2 end) cases.\n"
-    body += "Definition ints : list Z := " + coq_list(["(%d)" % n for n, _, _ in diff["ints"]]) + \
+    body += "Definition ints : list Z := " + coq_list([S.coq_int(n) for n, _, _ in diff["ints"]]) + \
             ".\nEval vm_compute in map (fun z => let '(tb, size) := int_token z in [tb; size]) ints.\n"
     try:
         vals, ivals = ctx.coq_eval("C12_tok", body, requires=REQ)
